@@ -23,13 +23,13 @@ S = D.S
 
 
 # ------------------------------------------------------------------ generation
-def _random_case(rng, cls):
+def _random_case(rng, cls, big=False):
     g = D.Gen(rng, cls)
     script = g.script(rng.randint(0, 8)) if g.abm and rng.random() < 0.5 else []
     ops = []
     for _ in range(rng.randint(1, 6)):
         ops.append(g.sched(2, False))
-    total = rng.randint(5, 22)
+    total = rng.randint(20, 45) if big else rng.randint(5, 22)
     while len(ops) < total:
         x = rng.random()
         if x < 0.36:
@@ -100,7 +100,7 @@ def gen_cases(rng, tier):
         cls = "ABM" if rng.random() < 0.45 else "DEVS"
         x = rng.random()
         if x < 0.6:
-            cases.append(_random_case(rng, cls))
+            cases.append(_random_case(rng, cls, big=(tier == "thorough" and i % 5 == 0)))
         elif x < 0.8:
             cases.append(_peek_case(rng, cls))
         else:
